@@ -186,6 +186,11 @@ def dyadic(rng: random.Random, lo=-64, hi=64, denom_pow=3) -> float:
     return rng.randint(lo * q, hi * q) / q
 
 
+def fillv(rng: random.Random) -> float:
+    """a fill value: zero (falsy in Python, and the library default) about a third of the time"""
+    return 0.0 if rng.random() < 0.3 else dyadic(rng)
+
+
 def dyadic_array(rng: random.Random, shape) -> np.ndarray:
     total = int(np.prod(shape)) if len(shape) else 1
     return np.array([dyadic(rng) for _ in range(total)], dtype=float).reshape(shape)
